@@ -29,13 +29,13 @@ CHECKS["C08"] = ("property-based testing (rapid): valid-by-construction programs
          "Programs from two typed generators (exec profile: compute over scalars/vectors/matrices/arrays/structs/pointers/control flow/builtins; full profile: 1-4 entry points of mixed stages, IO structs, textures/samplers, shared and aliased bindings, shadowing, forward references, overrides, atomics) and the corpus are run through Parse, Lower, Validate, the one-call Compile API and the SPIR-V/HLSL/MSL/GLSL backends under drawn option sets; any error or panic is a violation unless it maps to a listed finding. Exploration only.",
          "Trusted: validity by construction of the generators (own AST and typing); documented-feature scope taken from README/CHANGELOG/corpus.", "DESIGN.md §4 C08")
 CHECKS["C10"] = ("property-based testing (rapid) in an isolated worker process: hostile and amplified inputs, crash/hang/memory oracle",
-         "Arbitrary bytes, token soups, token-level mutations of corpus and generated programs and 30 amplifier families (nesting, chains, long tokens, unterminated constructs; sizes doubled up to 16/64 KiB) are run through tokenize/parse/lower/validate/compile and all five backends in a sandboxed worker; a recovered panic, a fatal runtime error, live heap above 1.5 GB, allocation growing faster than n^3.5 or a missing answer within 120 s is a violation. Exploration only; polynomial bounds are approximated by fixed limits.",
+         "Arbitrary bytes, token soups, token-level mutations of corpus and generated programs 34 amplifier families (nesting, chains, diamond-shaped call / let / const graphs, long tokens, unterminated constructs; sizes doubled up to 16/64 KiB), a builtin-arity family and an exhaustive (texture builtin x texture kind x argument count) sweep are run through tokenize/parse/lower/validate/compile and all five backends in a sandboxed worker; a recovered panic, a fatal runtime error, live heap above 1.5 GB, allocation growing faster than n^3.5 or a missing answer within 120 s is a violation. Exploration only; polynomial bounds are approximated by fixed limits.",
          "Trusted: the worker attribution (one request in flight); time is only used for extreme cases because wall-clock varies with heap state.", "DESIGN.md §4 C10")
 CHECKS["C06"] = ("property-based testing (rapid): generated constant-expression trees x placement sites, three-way differential",
          "Constant-expression trees over abstract/concrete literals and named constants are placed at eleven kinds of site; the value observed by executing the compiled program (independent SPIR-V interpreter, GLSL interpreter as second opinion) must equal the value of an independent WGSL const-evaluator, fully concrete trees must agree with their run-time twin (leaves loaded from a buffer), and expressions WGSL makes an error (integer division by zero, unrepresentable value) must be rejected. Exploration only.",
          "Trusted: verif/internal/wref const-evaluation (abstract ints in 64 bits, floats in binary64, WGSL conversion rank); float results compared with tolerance; concrete overflow, over-wide shifts, cancellation-sensitive float sums are not judged.", "DESIGN.md §4 C06")
 CHECKS["C15"] = ("property-based testing (rapid): hostile data and unguarded indices vs trapping interpreters of the emitted code",
-         "Generated compute programs biased to the hardened constructs (integer division/remainder by zero and INT_MIN/-1, negation/abs of INT_MIN, float->int of infinite/out-of-range values, reads of uninitialised variables, unguarded dynamic indices from 32-bit boundary values) are compiled with each backend's protective options (SPIR-V defaults; HLSL RestrictIndexing; MSL restrict / read-zero-skip-write, enabled by checks/c15/ENABLE_MSL; GLSL zero-init only) and executed by interpreters that trap on any out-of-object access and report any use of an undefined value; results must equal the WGSL-defined values under the policy. Exploration only.",
+         "Generated compute programs biased to the hardened constructs (integer division/remainder by zero and INT_MIN/-1, negation/abs of INT_MIN, float->int of infinite/out-of-range values, reads of uninitialised variables, unguarded dynamic indices from 32-bit boundary values) are compiled with each backend's protective options (SPIR-V defaults; HLSL RestrictIndexing; MSL Index and Buffer policies drawn independently, restrict only while finding C04-3 keeps read-zero-skip-write unusable; GLSL zero-init only) and executed by interpreters that trap on any out-of-object access and report any use of an undefined value; results must equal the WGSL-defined values under the policy. Exploration only.",
          "Trusted: target interpreters' undefined-behaviour rules (verif/internal/spv, verif/internal/ctext); restrict accepts either clamping convention for negative indices.", "DESIGN.md §4 C15")
 
 EXEC_NOTE = "Trusted: verif/internal/wref (WGSL reference evaluator) and the target interpreter in verif/internal/%s, both written from the specifications and sharing no code with naga; textures, derivatives, subgroup and ray-query operations are outside the executors; constructs hit by an open finding are excluded by tag and counted."
